@@ -4,6 +4,56 @@ from ..rulelib import *
 from ..facts import fmt_sym, fmt_lit
 
 
+def baseline(ctx, rule='baseline-is-last-reported'):
+    """the value the filter compares against is MonitoredItem.last_data_value, and that field is only replaced on the
+    branch that reports the sample (the same branch that enqueues the notification)"""
+    r, db = ctx.r, ctx.db
+    cb = db.body('server::subscriptions::monitored_item::MonitoredItem::check_for_data_change')
+    if cb is None:
+        r.lost(rule, 'check_for_data_change', 'not found'); return
+    F = ctx.facts(cb)
+    # who writes the field at all
+    writers = set()
+    for b in db.find_bodies_mentioning(r'^server::', '.last_data_value'):
+        if '::tests::' in b.path:
+            continue
+        for bi, blk in enumerate(b.blocks):
+            if blk['c']:
+                continue
+            for st in blk['s']:
+                if st[0] == '=' and st[1][1] and st[1][1][-1] == '.last_data_value':
+                    writers.add(b.path)
+    extra = sorted(w for w in writers if not w.endswith('MonitoredItem::check_for_data_change'))
+    if extra:
+        r.fail(rule, 'writers', 'last_data_value is also assigned in %s: the comparison baseline is no longer only the last reported value' % ', '.join(extra), loc=cb.loc)
+    else:
+        r.ok(rule, 'writers', 'last_data_value is assigned only in check_for_data_change (and initialised to None in new)', loc=cb.loc)
+    enq = [c for c in cb.calls() if c.callee.endswith('MonitoredItem::enqueue_notification_message')]
+    asg = [(bi, si) for bi, blk in enumerate(cb.blocks) if not blk['c'] for si, st in enumerate(blk['s'])
+           if st[0] == '=' and st[1][1] and st[1][1][-1] == '.last_data_value']
+    if not enq or not asg:
+        r.lost(rule, 'sites', 'assignment of last_data_value / enqueue_notification_message not found'); return
+    def report_flags(bb, si=None):
+        return {l[1] for l, e in F.literals_at(bb, si) if l[0] == 'truth' and l[2] is True and l[1][0] == 'place' and not l[1][2]}
+    rep = set.intersection(*[report_flags(c.bb) for c in enq])
+    for n, (bi, si) in enumerate(asg):
+        fl = report_flags(bi, si)
+        if rep and fl & rep:
+            r.ok(rule, 'assign#%d' % n, 'the baseline is replaced only under `%s == true`, the flag that also guards the notification' % fmt_sym(cb, sorted(fl & rep)[0]), loc=cb.loc)
+        else:
+            r.fail(rule, 'assign#%d' % n, 'last_data_value is replaced on a path that does not report the sample: the deadband / trigger is then evaluated against '
+                   'the last sample instead of the last reported value (slow drift is never reported)', loc=cb.loc)
+    # the comparisons read the baseline
+    cmps = [c for c in cb.calls() if c.callee_raw.endswith('DataChangeFilter>::compare')]
+    for c in cmps:
+        a2 = fmt_sym(cb, F.sym_operand(c.args[2]))
+        if '.last_data_value' in a2:
+            r.ok(rule, 'compare:baseline', 'DataChangeFilter::compare(new sample, %s, ..)' % a2[:60], loc=c.loc)
+        else:
+            r.fail(rule, 'compare:baseline', 'the filter compares the sample with %s instead of the last reported value' % a2[:80], loc=c.loc)
+    r.count('baseline_sites', len(asg) + len(cmps))
+
+
 def run(ctx):
     r, db = ctx.r, ctx.db
     r.explanation = ('One clause of the property: DataChangeFilter::compare_value answers Err - which sampling interprets as "no change" '
@@ -11,8 +61,9 @@ def run(ctx):
                      '(MonitoredItem::check_for_data_change) is checked to pass either a real EU range or the constant None; in the latter '
                      'case the accepting construction Ok(FilterType::DataChangeFilter(..)) in FilterType::from_filter must be dominated by '
                      'the edges deadband_type != Percent, deadband_type <= Percent and deadband_value >= 0 (IEEE: a positive comparison, so '
-                     'NaN is refused too). Trigger semantics and deadband arithmetic are not decided.')
+                     'NaN is refused too). Baseline clause: MonitoredItem.last_data_value - the value every comparison reads - is replaced only on the reporting branch. Trigger semantics and deadband arithmetic are not decided.')
     r.rule_text = 'E6 agreement between the error conditions of compare_value and the acceptance guard in from_filter (MIR edge literals)'
+    baseline(ctx)
     rule = 'accepted-filter-can-report'
     cb = db.body('server::subscriptions::monitored_item::MonitoredItem::check_for_data_change')
     if cb is None:
